@@ -6,7 +6,8 @@ from checks import simcommon as sc
 
 MODULE = "Nice.Props.C02"
 THEOREMS = [f"Nice.Props.C02.{t}" for t in (
-    "C02_compact_exact", "C02_scatter_exact", "C02_scatter_compact_roundtrip", "gather_eq", "C02_frames_concat", "C02_demux")]
+    "C02_compact_exact", "C02_scatter_exact", "C02_scatter_compact_roundtrip", "gather_eq", "C02_frames_concat", "C02_demux")] + [
+    "Nice.Props.C03Flow.C03_inbound_consumes_control_traffic"]
 TRUSTED = [
     "Lean 4 kernel; axioms propext, Classical.choice, Quot.sound only (audited every run)",
     "Nice/Model/Copy.lean: hand-written models of compact_message / memcpy_buffer_to_input_message and of the >0xF800 ICE-TCP "
@@ -59,6 +60,13 @@ def scenario(args):
         s.op(f"net seed {seed}")
         s.op("net trace 0")
         s.op(f"net latency 1 {cfg['lat']}")
+        # half of the UDP sessions negotiate over a slow, duplicating path: checks are retransmitted and answered more than
+        # once, so duplicate / late STUN responses (no pending transaction any more) arrive before and after READY — none of
+        # that control traffic may show up at the application
+        noisy_ctl = transport == "udp" and rng.random() < 0.5
+        if noisy_ctl:
+            s.op(f"net latency {rng.choice([1, 150])} {rng.choice([260, 420])}")
+            s.op(f"net dup {rng.choice([30, 60])}")
         extra = {"udp": "", "tcp": " icetcp=1 iceudp=0", "reliable": ""}[transport]
         opts = 2 if transport == "reliable" else 0
         s.op(f"new A ctrl=1 compat=0 opts={opts}{extra}")
@@ -72,6 +80,9 @@ def scenario(args):
         q = simlib.parse_q(s.op("q A 1 1")[1])
         if q["state"] != "READY":
             return dict(seed=seed, transport=transport, bad=[("setup", f"not READY: {q['state']}")], script=s.script, nmsg=0, model_lines=[])
+        if noisy_ctl:
+            s.op("net dup 0")
+            s.op(f"net latency 1 {cfg['lat']}")
         if transport == "udp":
             lossy = rng.random() < 0.4
             if lossy:
@@ -131,6 +142,11 @@ def scenario(args):
         s.op("run 3000")
         got = [bytes.fromhex(m.group(1)) if m.group(1) != "-" else b"" for e in s.events()
                for m in [re.match(r"t=\d+ B recv 1 1 (\S+)", e)] if m]
+        for e in s.events():
+            m = re.match(r"t=\d+ A recv 1 1 (\S+)", e)
+            if m:
+                bad.append(("control-traffic-delivered", f"agent A's application received {m.group(1)[:48]}… although B's application sent nothing"))
+                break
         if transport == "udp":
             # each received datagram is exactly one sent message, in order (no loss configured => all arrive), none altered/merged/split/duplicated
             it = iter(sent_msgs)
